@@ -22,9 +22,9 @@ GROUPS = {
         subst=dict(Bundles="B_One", InitOps="NoOps"),
         mc_quick=C(NSys=2, OpNames={"run", "sysev"}, MaxOps=3, Budget=4, MaxSteps=2, Features={"notake"}),
         mc_thorough=C(NSys=3, RcSys={2}, OpNames={"run", "sysev", "despsys", "rcdrop"}, MaxOps=3, Budget=6, MaxSteps=2, Features={"err", "notake"}),
-        gen=C(NSys=3, Excl={3}, RcSys={2}, OpNames={"run", "sysev", "xsysev", "despsys", "rcdrop", "probe"}, MaxOps=3, Budget=9, MaxSteps=3, Features={"err", "notake", "take2"},
+        gen=C(NSys=3, Excl={3}, RcSys={2}, OpNames={"run", "sysev", "xsysev", "irun", "isysev", "despsys", "rcdrop", "probe"}, MaxOps=3, Budget=9, MaxSteps=3, Features={"err", "notake", "take2"},
               StepKinds={"ops", "direct"}),
-        rnd=dict(cfg=dict(kinds=["plain", "plain", "excl"], nonce=0, nent=1, rcsys=[2]), alphabet=["run", "sysev", "xsysev", "despsys", "rcdrop", "probe"], p_direct=15,
+        rnd=dict(cfg=dict(kinds=["plain", "plain", "excl"], nonce=0, nent=1, rcsys=[2]), alphabet=["run", "sysev", "xsysev", "irun", "isysev", "despsys", "rcdrop", "probe"], p_direct=15,
                  trigs=["bc"], max_ops=4, budget=12, steps=3, ntypes=1, p_gcpoll=10, init=[]),
     ),
     # events with listeners of all event kinds: C01 C03 C04 C05 C12
@@ -32,10 +32,10 @@ GROUPS = {
         subst=dict(Bundles="B_One", InitOps="Init_ListenRc"),
         mc_quick=C(NSys=3, OpNames={"bc", "eev", "sysev", "probe", "run"}, MaxOps=3, Budget=3, MaxSteps=2, Features={"notake"}),
         mc_thorough=C(NSys=3, OpNames={"bc", "eev", "sysev", "res", "run", "probe"}, MaxOps=2, Budget=5, MaxSteps=2, Features={"notake"}),
-        gen=C(NSys=3, Excl={3}, NEnt=2, OpNames={"bc", "eev", "sysev", "xbc", "xeev", "xsysev", "res", "run", "probe", "despsys", "revoke"}, MaxOps=3, Budget=9, MaxSteps=3,
+        gen=C(NSys=3, Excl={3}, NEnt=2, OpNames={"bc", "eev", "sysev", "xbc", "xeev", "xsysev", "irun", "isysev", "ibc", "ieev", "res", "run", "probe", "despsys", "revoke"}, MaxOps=3, Budget=9, MaxSteps=3,
               Features={"err", "notake", "take2"}, StepKinds={"ops", "gc", "direct"}),
         rnd=dict(cfg=dict(kinds=["plain", "plain", "excl"], nonce=0, nent=2), p_direct=15,
-                 alphabet=["bc", "eev", "sysev", "xbc", "xeev", "xsysev", "res", "run", "probe", "despsys", "revoke"],
+                 alphabet=["bc", "eev", "sysev", "xbc", "xeev", "xsysev", "irun", "isysev", "ibc", "ieev", "res", "run", "probe", "despsys", "revoke"],
                  trigs=["bc"], max_ops=3, budget=12, steps=3, ntypes=2, p_gcpoll=10,
                  init=[["reg", "persistent", 1, [["bc", 1], ["eev", 1, 1], ["bc", 2]], 0], ["reg", "cleanup", 2, [["bc", 1], ["res", 1], ["anyev", 2]], 0],
                        ["reg", "revokable", 3, [["anyev", 1], ["bc", 1], ["eev", 2, 2]], 1]]),
